@@ -9,11 +9,11 @@
 //!   kind multi-arc|multi-arena
 //! single action:
 //!   dispatch <i> | abort <k> | drop <k> (drop the abort handle) | ready <k> <v> | clear | obs
-//!   poll <j> [a|f]   poll the (j mod len)-th ready task; when the abort message and the result are both
-//!                    available at that poll the unbiased `select!` may take either arm: the op must then say
-//!                    which arm (a = abort, f = future) and the harness re-runs the case until the real
-//!                    `select!` takes it (`bad-op` if the bit is missing in that situation)
-//!   idle             FIFO polls until no task is woken (races resolved as `a`)
+//!   poll <j>         poll the (j mod len)-th ready task; when the abort message and the result are both
+//!                    available at that poll the repaired code (`select_biased!`, abort arm first, F-C17-1)
+//!                    takes the abort arm; a regression to the unbiased `select!` takes the future's arm
+//!                    about half the time and is reported as `fail abort-race`
+//!   idle             FIFO polls until no task is woken
 //!   -> `p=<0|1> ver=<n> val=<v|-> in=<v|-> rl=<ready-list length> ## <verdict>`
 //! multi action:
 //!   dispatch <i> | dsync <v> | cancel <s> | ready <t> <v> | poll <j> | idle | obs
@@ -221,8 +221,8 @@ enum H {
     Abort(usize),
     Drop(usize),
     Ready(usize, u32),
-    /// (task id, the arm the unbiased select is asked to look at first is the future)
-    Polled(usize, bool),
+    /// task id
+    Polled(usize),
     Clear,
 }
 
@@ -246,24 +246,21 @@ struct Exp {
     version: usize,
     value: Option<u32>,
     input: Option<u32>,
-    /// some dispatch whose abort preceded its completion wrote anyway
-    race_lost: bool,
     /// every unfinished dispatch has neither been resolved nor aborted
     untouched: bool,
     max_overlap: usize,
     tags: BTreeSet<&'static str>,
 }
 
-/// The property, evaluated on the history alone: a dispatch is finished when a poll of its task
-/// saw its result, aborted when a poll saw the abort message (the op's bit decides when it saw
-/// both); pending = some dispatch neither finished nor aborted; version = number finished;
+/// The property, evaluated on the history alone: a dispatch is aborted when a poll of its task
+/// saw the abort message (whether or not its result was available too), finished when a poll saw
+/// its result and no abort message; pending = some dispatch neither finished nor aborted; version = number finished;
 /// value = result of the most recently finished one (or None after a later `clear`);
 /// input = latest dispatched input while pending, None otherwise.
 fn eval_single(v0: Option<u32>, hist: &[H]) -> Exp {
     let mut recs: Vec<Rec> = vec![];
     let mut value = v0;
     let mut last_input = None;
-    let mut race_lost = false;
     let mut max_overlap = 0;
     let mut tags = BTreeSet::new();
     let mut completion_order: Vec<usize> = vec![];
@@ -300,34 +297,23 @@ fn eval_single(v0: Option<u32>, hist: &[H]) -> Exp {
                     }
                 }
             }
-            H::Polled(id, fut_first) => {
+            H::Polled(id) => {
                 if let Some(r) = recs.get_mut(id) {
                     if r.fate == Fate::Running {
-                        let done = match (r.abort_at, r.ready_at) {
-                            (Some(_), Some((_, v))) => {
-                                tags.insert(if fut_first { "race-fut-arm" } else { "race-abort-arm" });
-                                if fut_first { Some(Some(v)) } else { Some(None) }
-                            }
-                            (Some(_), None) => Some(None),
-                            (None, Some((_, v))) => Some(Some(v)),
-                            (None, None) => None,
-                        };
-                        match done {
-                            Some(Some(v)) => {
-                                r.fate = Fate::Completed;
-                                value = Some(v);
-                                completion_order.push(id);
-                                if let (Some(a), Some((rd, _))) = (r.abort_at, r.ready_at) {
-                                    if a < rd {
-                                        race_lost = true;
-                                    }
+                        match (r.abort_at, r.ready_at) {
+                            (Some(a), ready) => {
+                                if let Some((rd, _)) = ready {
+                                    tags.insert(if a < rd { "race-abort-first" } else { "race-ready-first" });
                                 }
-                            }
-                            Some(None) => {
                                 r.fate = Fate::Aborted;
                                 tags.insert("abort-before-ready");
                             }
-                            None => {}
+                            (None, Some((_, v))) => {
+                                r.fate = Fate::Completed;
+                                value = Some(v);
+                                completion_order.push(id);
+                            }
+                            (None, None) => {}
                         }
                     }
                 }
@@ -342,16 +328,12 @@ fn eval_single(v0: Option<u32>, hist: &[H]) -> Exp {
     if completion_order.windows(2).any(|w| w[0] > w[1]) {
         tags.insert("out-of-order");
     }
-    if race_lost {
-        tags.insert("race-lost");
-    }
     let pending = recs.iter().any(|r| r.fate == Fate::Running);
     Exp {
         pending,
         version: recs.iter().filter(|r| r.fate == Fate::Completed).count(),
         value,
         input: if pending { last_input } else { None },
-        race_lost,
         untouched: recs
             .iter()
             .all(|r| r.fate != Fate::Running || (r.abort_at.is_none() && r.ready_at.is_none())),
@@ -424,8 +406,6 @@ fn eval_multi(hist: &[MH]) -> (usize, Vec<SubRec>, BTreeSet<&'static str>) {
 
 // ------------------------------------------------------------------ one live case
 
-struct RaceMiss;
-
 struct Live {
     kind: Kind,
     v0: Option<u32>,
@@ -442,6 +422,8 @@ struct Live {
     abort_live: Vec<bool>,
     ready_live: Vec<bool>,
     fn_input_ok: bool,
+    /// a poll that saw the abort message let the future's arm run (F-C17-1 regression)
+    abort_lost: bool,
     hist: Vec<H>,
     mhist: Vec<MH>,
 }
@@ -469,6 +451,7 @@ impl Live {
             abort_live: vec![],
             ready_live: vec![],
             fn_input_ok: true,
+            abort_lost: false,
             hist: vec![],
             mhist: vec![],
         }
@@ -533,21 +516,15 @@ impl Live {
             }
         }
     }
-    /// poll the j-th ready task; Ok(None) = the op needs a choice bit it does not have
-    fn poll_nth(&mut self, j: usize, choice: Option<bool>) -> Result<Option<()>, RaceMiss> {
+    /// poll the j-th ready task
+    fn poll_nth(&mut self, j: usize) {
         let r = sched::ready();
         if r.is_empty() {
-            return Ok(Some(()));
+            return;
         }
         let id = r[j % r.len()];
-        let race = !self.is_multi()
-            && id < self.task_done.len()
-            && self.abort_live[id]
-            && self.ready_live[id]
-            && !self.task_done[id];
-        if race && choice.is_none() {
-            return Ok(None);
-        }
+        // the abort message was visible at this poll (sent on a live handle to a live task)
+        let abort_visible = !self.is_multi() && id < self.task_done.len() && self.abort_live[id] && !self.task_done[id];
         let done = sched::poll(id);
         if id < self.task_done.len() {
             self.task_done[id] = done;
@@ -555,24 +532,21 @@ impl Live {
         if self.is_multi() {
             self.mhist.push(MH::Polled(id));
         } else {
-            self.hist.push(H::Polled(id, choice == Some(true)));
-        }
-        if race {
-            let fut_arm_ran = self.body_done[id].load(SeqCst);
-            if fut_arm_ran != (choice == Some(true)) {
-                return Err(RaceMiss);
+            self.hist.push(H::Polled(id));
+            // independent of the action's state: the harness's own future ran to completion
+            // although the abort arm was ready ⇒ the select is not biased to the abort arm
+            if abort_visible && self.body_done[id].load(SeqCst) {
+                self.abort_lost = true;
             }
         }
-        Ok(Some(()))
     }
-    fn run_idle(&mut self) -> Result<(), RaceMiss> {
+    fn run_idle(&mut self) {
         for _ in 0..100_000 {
             if sched::ready().is_empty() {
                 break;
             }
-            self.poll_nth(0, Some(false))?;
+            self.poll_nth(0);
         }
-        Ok(())
     }
 
     fn obs(&self) -> String {
@@ -599,7 +573,9 @@ impl Live {
         } else {
             let (p, ver, val, inp) = self.single.as_ref().unwrap().read();
             let e = eval_single(self.v0, &self.hist);
-            let verdict = if p != e.pending {
+            let verdict = if self.abort_lost {
+                "fail abort-race"
+            } else if p != e.pending {
                 "fail pending"
             } else if ver != e.version {
                 "fail version"
@@ -607,8 +583,6 @@ impl Live {
                 "fail value"
             } else if inp != e.input {
                 "fail input"
-            } else if e.race_lost {
-                "fail abort-race"
             } else if rl == 0 && !e.untouched {
                 "fail idle-unfinished"
             } else if !self.fn_input_ok {
@@ -620,12 +594,12 @@ impl Live {
         }
     }
 
-    fn apply(&mut self, line: &str) -> Result<String, RaceMiss> {
+    fn apply(&mut self, line: &str) -> String {
         let w: Vec<&str> = line.split_whitespace().collect();
         let num = |s: &str| s.parse::<u32>().ok();
         let idx = |s: &str| s.parse::<usize>().ok();
         const BAD: &str = "bad-op";
-        let bad = || Ok(BAD.to_string());
+        let bad = || BAD.to_string();
         match w.as_slice() {
             ["kind", k] | ["kind", k, _] => {
                 let Some(kind) = kind_of(k) else { return bad() };
@@ -652,7 +626,7 @@ impl Live {
                 self.v0 = v0;
                 self.started = true;
                 self.ensure();
-                return Ok(line.split_whitespace().collect::<Vec<_>>().join(" "));
+                return line.split_whitespace().collect::<Vec<_>>().join(" ");
             }
             _ => {}
         }
@@ -683,9 +657,9 @@ impl Live {
                 }
                 ["poll", j] => {
                     let Some(j) = idx(j) else { return bad() };
-                    self.poll_nth(j, None)?;
+                    self.poll_nth(j);
                 }
-                ["idle"] => self.run_idle()?,
+                ["idle"] => self.run_idle(),
                 ["obs"] => {}
                 _ => return bad(),
             }
@@ -723,20 +697,9 @@ impl Live {
                 }
                 ["poll", j] => {
                     let Some(j) = idx(j) else { return bad() };
-                    if self.poll_nth(j, None)?.is_none() {
-                        return bad();
-                    }
+                    self.poll_nth(j);
                 }
-                ["poll", j, c] => {
-                    let Some(j) = idx(j) else { return bad() };
-                    let c = match *c {
-                        "a" => false,
-                        "f" => true,
-                        _ => return bad(),
-                    };
-                    self.poll_nth(j, Some(c))?;
-                }
-                ["idle"] => self.run_idle()?,
+                ["idle"] => self.run_idle(),
                 ["clear"] => {
                     self.single.as_ref().unwrap().clear();
                     self.hist.push(H::Clear);
@@ -746,7 +709,7 @@ impl Live {
             }
         }
         self.started = true;
-        Ok(self.obs())
+        self.obs()
     }
 
     fn tags(&self) -> Vec<String> {
@@ -801,75 +764,19 @@ impl Drop for Live {
     }
 }
 
-/// one case: the live state plus the ops so far (to re-run the case when the real `select!`
-/// took the other arm than the one the op asks for)
+/// one case
 struct CaseRunner {
     live: Live,
-    ops: Vec<String>,
-    outs: Vec<String>,
 }
-/// restarts allowed per unrealised race poll: 40 * 2^(race polls in the case so far) — every race of the
-/// case must come out right in the same re-run, each with probability 1/2 under the unbiased `select!`
-const RESTARTS_PER_RACE: usize = 40;
-/// after this many polls whose requested arm the real code never took, stop searching (the real
-/// `select!` is evidently not choosing freely any more) and report them at once
-const MAX_UNREALISED: usize = 12;
-static UNREALISED: std::sync::atomic::AtomicUsize = std::sync::atomic::AtomicUsize::new(0);
-
 impl CaseRunner {
     fn new() -> Self {
-        CaseRunner { live: Live::new(), ops: vec![], outs: vec![] }
+        CaseRunner { live: Live::new() }
     }
     fn feed(&mut self, op: &str) -> String {
-        let r = catch_unwind(AssertUnwindSafe(|| self.live.apply(op)));
-        let out = match r {
+        match catch_unwind(AssertUnwindSafe(|| self.live.apply(op))) {
+            Ok(o) => o,
             Err(_) => "panic ## fail panic".to_string(),
-            Ok(Ok(o)) => o,
-            Ok(Err(RaceMiss)) => self.realise(op),
-        };
-        self.ops.push(op.to_string());
-        self.outs.push(out.clone());
-        out
-    }
-    fn realise(&mut self, op: &str) -> String {
-        // upper bound on the race polls of the case so far (each must come out right in the same re-run)
-        let races = 1 + self
-            .ops
-            .iter()
-            .filter(|o| o.as_str() == "idle" || (o.starts_with("poll") && o.split_whitespace().count() == 3))
-            .count();
-        let budget = if UNREALISED.load(SeqCst) >= MAX_UNREALISED { 0 } else { RESTARTS_PER_RACE << races.min(8) };
-        for _ in 0..budget {
-            self.live.teardown();
-            self.live = Live::new();
-            let mut outs2 = Vec::with_capacity(self.ops.len() + 1);
-            let mut ok = true;
-            for o in self.ops.iter().map(|s| s.as_str()).chain(std::iter::once(op)) {
-                match catch_unwind(AssertUnwindSafe(|| self.live.apply(o))) {
-                    Ok(Ok(x)) => outs2.push(x),
-                    Ok(Err(RaceMiss)) => {
-                        ok = false;
-                        break;
-                    }
-                    Err(_) => outs2.push("panic ## fail panic".to_string()),
-                }
-            }
-            if ok {
-                let last = outs2.pop().unwrap();
-                if outs2 != self.outs {
-                    return "replay-diverged ## fail replay-diverged".into();
-                }
-                return last;
-            }
         }
-        UNREALISED.fetch_add(1, SeqCst);
-        // leave a live state behind that at least has the same shape (the wrong arm ran)
-        self.live.teardown();
-        self.live = Live::new();
-        for o in self.ops.iter().map(|s| s.as_str()).chain(std::iter::once(op)) {
-            let _ = catch_unwind(AssertUnwindSafe(|| self.live.apply(o)));
-        }
-        "race-unrealised ## fail race-unrealised".into()
     }
 }
 
@@ -971,13 +878,6 @@ impl Sim {
             }
         }
     }
-    fn race(&self, j: usize) -> bool {
-        let r = self.ready_list();
-        !r.is_empty() && {
-            let t = &self.t[r[j % r.len()]];
-            t.abort && t.ready
-        }
-    }
     fn poll(&mut self, j: usize) {
         let r = self.ready_list();
         if r.is_empty() {
@@ -1057,8 +957,8 @@ impl Gen {
 /// exhaustive small scope for the single action: every assignment of a script to each of `nd`
 /// dispatches, every interleaving of the scripts' events, the polling modes
 /// E (every event processed at once: completion order = event order), L (nothing polled until
-/// the end, FIFO, races to the abort arm), F (nothing polled until the end, LIFO, races to the
-/// future's arm), P (tasks parked first, then FIFO at the end, races to the future's arm)
+/// the end, FIFO), F (nothing polled until the end, LIFO), P (tasks parked first, then polled one
+/// by one at the end); in L, F and P a poll may find the abort message and the result together
 fn gen_exhaustive_single(g: &mut Gen, nd: usize, scripts: &[&str], modes: &[char], with_clear: bool) {
     let mut kind_rot = 0usize;
     for assign in product(nd, scripts.len()) {
@@ -1096,12 +996,12 @@ fn gen_exhaustive_single(g: &mut Gen, nd: usize, scripts: &[&str], modes: &[char
                 match mode {
                     'F' => {
                         for m in (0..nd).rev() {
-                            l.push(format!("poll {m} f"));
+                            l.push(format!("poll {m}"));
                         }
                     }
                     'P' => {
                         for _ in 0..nd {
-                            l.push("poll 0 f".into());
+                            l.push("poll 0".into());
                         }
                     }
                     _ => {}
@@ -1225,11 +1125,7 @@ fn gen_random_single(g: &mut Gen, rng: &mut Rng) {
             }
             _ => {
                 let j = rng.below(5);
-                if sim.race(j) || rng.chance(1, 10) {
-                    l.push(format!("poll {j} {}", if rng.chance(1, 2) { "a" } else { "f" }));
-                } else {
-                    l.push(format!("poll {j}"));
-                }
+                l.push(format!("poll {j}"));
                 sim.poll(j);
             }
         }
